@@ -148,8 +148,6 @@ def _wrap_fn(
                 positional_validators.append(
                     (key, _get_validator_partial(key, annotation))
                 )
-
-            schema[key] = None
         elif param.kind == param.POSITIONAL_OR_KEYWORD:
             positional_args_names.add(key)
             if (
